@@ -1,7 +1,8 @@
 """Native replay for C18 (runs under /venv/bin/python against the REAL client, no z3).
 
 A fake Microsoft Graph document library (random folder trees, names that need URL quoting, 0..N items per
-folder, page sizes 1..N, optional fields missing) is served through the client's `request_func` hook.  Checked:
+folder, page sizes 1..N, optional fields missing, hidden children that are trimmed after paging -- so a page that is
+not the last may be short or empty and still carry a nextLink) is served through the client's `request_func` hook.  Checked:
 
 * list_all_files / list_files_filtered == an independent reference walk + reference filter (written from the
   property statement: instants as exact fractions, inclusive-after / exclusive-before, case-insensitive
